@@ -147,4 +147,22 @@ def flatField (f : Field) : Bool :=
 def flatStruct (sd : StructDef) : Bool :=
   sd.unit == 8 && sd.fields.all flatField
 
+/-! ### logical equality (C20) -/
+
+def isPhys (f : Field) : Bool :=
+  match f.kind with
+  | .phys _ _ _ _ => true
+  | _ => false
+
+/-- Two buffers are *logically equal* as views of `sd` (C20's statement): they agree on which
+physical fields are present, and every present physical field reads equal — all as defined by
+the reference semantics.  Bytes no field covers, and virtual fields, play no role. -/
+def LogicallyEqual (sd : StructDef) (ps : List Val) (a b : List Nat) : Prop :=
+  ∀ f ∈ sd.fields, isPhys f = true →
+    ∃ c, RFact sd ps a (.pres [f.name] c) ∧ RFact sd ps b (.pres [f.name] c) ∧
+      (c = true → ∃ v, RFact sd ps a (.val [f.name] v) ∧ RFact sd ps b (.val [f.name] v))
+
+/-- field names are unique (the front end rejects duplicate names) -/
+def namesUnique (sd : StructDef) : Prop := ∀ f ∈ sd.fields, sd.field f.name = some f
+
 end Emboss.ViewRef
